@@ -19,7 +19,7 @@ import zipfile
 
 import numpy as np
 
-from dst import kernel, sandbox as sbx, seams, cluster
+from dst import kernel, sandbox as sbx, seams, cluster, runner
 from dst.kernel import Sim, HarnessError, stream, canon, digest, H
 
 PROP = 'C15'
@@ -218,7 +218,23 @@ def gen_plan(seed, n_ops=None):
         if kind == 'zip':
             op['order_seed'] = rng.randrange(1 << 30)
         ops.append(op)
+    # one record with many in-codespace, logically failing trials (a long
+    # run near threshold on a tiny code with a complete decoder)
+    long_input = {'ranges': {
+        'label': 'long',
+        'code': {'name': rng.choice(['Toric2DCode', 'Planar2DCode']),
+                 'parameters': [{'L_x': 2, 'L_y': 2}]},
+        'error_model': {'name': 'PauliErrorModel', 'parameters': [
+            {'r_x': 1/3, 'r_y': 1/3, 'r_z': 1/3}]},
+        'decoder': {'name': 'MatchingDecoder', 'parameters': {}},
+        'error_rate': [0.42]}}
+    if rng.random() < 0.3:
+        pos = rng.randint(1, len(ops))
+        ops.insert(pos, {'op': 'long_run', 'trials': rng.randint(560, 900),
+                         'ext': rng.choice(['.json', '.json.gz']),
+                         'pick': 0.0, 'pick2': 0.0, 'n': 1})
     return {'property': PROP, 'seed': seed, 'inputs': inputs, 'ops': ops,
+            'long_input': long_input,
             'listing_seed': rng.randrange(1 << 30)}
 
 
@@ -249,7 +265,7 @@ class Store:
         self.ledger = seams.Ledger(sim)
         self.lrng = stream(self.plan['listing_seed'], 'listing')
         self.sb.install()
-        seams.install_entropy()
+        seams.install_entropy(sim.seed)
         seams.install_clock(sim.clock)
         self.ledger.install()
         install_chaos()
@@ -264,6 +280,10 @@ class Store:
                     os.path.join(self.data_dir, 'inputs',
                                  f'input_{i:02d}.json'),
                     canon(spec).encode())
+            if self.plan.get('long_input'):
+                self.sb.write_bytes(
+                    os.path.join(self.data_dir, 'long', 'input_long.json'),
+                    canon(self.plan['long_input']).encode())
             self.expected = {}
             for idx, op in enumerate(self.plan['ops']):
                 applied = self.apply(idx, op)
@@ -349,6 +369,8 @@ class Store:
             ok = self.op_cluster(idx, op)
         elif kind == 'single_run':
             ok = self.op_single(idx, op)
+        elif kind == 'long_run':
+            ok = self.op_long(idx, op)
         elif kind == 'resume':
             ok = self.op_resume(idx, op)
         elif kind == 'merge':
@@ -487,6 +509,14 @@ class Store:
         out = os.path.join(self.res_dir, f'single_{idx}{op["ext"]}')
         self._run_file(f'op{idx}-single', inp, out, op['trials'])
         self.singles.append([out, i, op['trials']])
+        return True
+
+    def op_long(self, idx, op):
+        inp = os.path.join(self.data_dir, 'long', 'input_long.json')
+        if not os.path.exists(inp):
+            return False
+        out = os.path.join(self.res_dir, f'long_{idx}{op["ext"]}')
+        self._run_file(f'op{idx}-long', inp, out, op['trials'])
         return True
 
     def op_resume(self, idx, op):
@@ -728,6 +758,8 @@ class Store:
                 sq = math.sqrt(q * (1 - q) / (n + 1))
                 if not close(float(ses_[i, j]), sq):
                     return bad('single_qubit_p_se', ses_[i, j], sq)
+        if max(fx, fz) >= 256:
+            self.sim.probe('row_with_256_or_more_sector_fails')
         if ncs < n:
             self.sim.probe('row_with_out_of_codespace_trials')
         if k > 1:
@@ -741,8 +773,13 @@ def _f(v):
         return str(v)[:80]
 
 
-def execute(plan, keep_events=False):
+def execute_here(plan, keep_events=False):
     return Store(plan, keep_events).run()
+
+
+def execute(plan, **kw):
+    """One plan = one simulated process image: run in a forked child."""
+    return runner.isolated(execute_here, plan, **kw)
 
 
 # ---------------------------------------------------------------------------
